@@ -219,7 +219,7 @@ def obligation(ctx, prop, role, claim, detail, extra_fn=None):
                     return False
             violation(ctx, prop, role, m, detail)
             return False
-        violation(ctx, prop, 'OUTSIDE-KNOWN-CLASS!' + role, m2, detail)
+        violation(ctx, prop, role, m2, detail, extra_fn(m2) if (extra_fn and m2 != 'unknown') else None)
         return False
     violation(ctx, prop, role, m, detail, extra_fn(m) if (extra_fn and m != 'unknown') else None)
     return False
@@ -644,3 +644,282 @@ def c08(ctx, l, sig):
 # ======================================================================================= registry
 HANDLERS = {'C02': c02, 'C03': c03, 'C04': c04, 'C06': c06, 'C08': c08, 'C09': c09}
 FINALIZERS = {'C02': c02_final}
+
+
+# ======================================================================================= C10
+ME_TABLE = {
+    'NoPosition': [0], 'AircraftIdentification': [1, 2, 3, 4], 'SurfacePosition': [5, 6, 7, 8],
+    'AirbornePositionBaroAltitude': list(range(9, 19)), 'AirborneVelocity': [19],
+    'AirbornePositionGNSSAltitude': [20, 21, 22], 'Reserved0': [23], 'SurfaceSystemStatus': [24],
+    'Reserved1': [25, 26, 27], 'AircraftStatus': [28], 'TargetStateAndStatusInformation': [29],
+    'AircraftOperationalCoordination': [30], 'AircraftOperationStatus': [31],
+}
+SS_IDS = {'NoCondition': 0, 'PermanentAlert': 1, 'TemporaryAlert': 2, 'SPICondition': 3}
+CPR_IDS = {'Even': 0, 'Odd': 1}
+GT_IDS = {'Invalid': 0, 'Valid': 1}
+VER_IDS = {'DOC9871AppendixA': 0, 'DOC9871AppendixB': 1, 'DOC9871AppendixC': 2}
+OPST_IDS = {'Airborne': 0, 'Surface': 1, 'Reserved': [2, 3, 4, 5, 6, 7]}
+F32 = z3.Float32()
+
+
+def flt_term(x):
+    return to_fp(x)
+
+
+def me_of(ctx, df):
+    A = ctx['A']
+    if df.variant == 'ADSB':
+        return A.f(df.f[0], 'me')
+    if df.variant == 'TisB':
+        return A.f(A.f(df, 'cf'), 'me')
+    return None
+
+
+def c10(ctx, l, sig):
+    prog, L, bs, P, A = ctx['prog'], ctx['L'], ctx['bs'], ctx['P'], ctx['A']
+    fr = ok_frame(l)
+    if fr is None or L < 14:
+        return
+    df = A.f(fr, 'df')
+    F = bs[:14]
+
+    def me(a, b):
+        return fbits(F, 32 + a, 32 + b)
+
+    def ob(role, claim, detail):
+        obligation(ctx, 'C10', '%s:%s' % (sig, role), claim, detail)
+
+    def bits_field(obj, name, a, b):
+        ob(name, eq_bits(A.f(obj, name), me(a, b)), '%s differs from payload bits %d-%d' % (name, a, b))
+
+    if df.variant in ('CommBAltitudeReply', 'CommBIdentityReply'):
+        bds = A.f(df, 'bds')
+        table = {'Empty': [0x00], 'DataLinkCapability': [0x10], 'AircraftIdentification': [0x20],
+                 'Unknown': [i for i in range(256) if i not in (0, 0x10, 0x20)]}
+        ob('bds-dispatch', enum_id_claim(prog, bds, table, me(1, 8)), 'BDS variant is not the one selected by the first MB byte')
+        if bds.variant == 'DataLinkCapability':
+            d = bds.f[0]
+            for name, a, b in (('continuation_flag', 9, 9), ('overlay_command_capability', 15, 15), ('acas', 16, 16),
+                               ('mode_s_subnetwork_version_number', 17, 23),
+                               ('transponder_enhanced_protocol_indicator', 24, 24),
+                               ('mode_s_specific_services_capability', 25, 25),
+                               ('uplink_elm_average_throughput_capability', 26, 28), ('downlink_elm', 29, 32),
+                               ('aircraft_identification_capability', 33, 33), ('squitter_capability_subfield', 34, 34),
+                               ('surveillance_identifier_code', 35, 35),
+                               ('common_usage_gicb_capability_report', 36, 36), ('reserved_acas', 37, 40),
+                               ('bit_array', 41, 56)):
+                bits_field(d, name, a, b)
+        return
+    m_ = me_of(ctx, df)
+    if m_ is None:
+        return
+    ob('me-dispatch', enum_id_claim(prog, m_, ME_TABLE, me(1, 5)), 'ME variant is not the one selected by the type code')
+    v = m_.variant
+    if v in ('AirbornePositionBaroAltitude', 'AirbornePositionGNSSAltitude'):
+        a_ = m_.f[0]
+        bits_field(a_, 'tc', 1, 5)
+        ob('ss', enum_id_claim(prog, A.f(a_, 'ss'), SS_IDS, me(6, 7)), 'surveillance status differs from ME bits 6-7')
+        bits_field(a_, 'saf_or_imf', 8, 8)
+        bits_field(a_, 't', 21, 21)
+        ob('odd_flag', enum_id_claim(prog, A.f(a_, 'odd_flag'), CPR_IDS, me(22, 22)), 'CPR format differs from ME bit 22')
+        bits_field(a_, 'lat_cpr', 23, 39)
+        bits_field(a_, 'lon_cpr', 40, 56)
+    elif v == 'SurfacePosition':
+        s_ = m_.f[0]
+        bits_field(s_, 'mov', 6, 12)
+        ob('s', enum_id_claim(prog, A.f(s_, 's'), GT_IDS, me(13, 13)), 'ground track status differs from ME bit 13')
+        bits_field(s_, 'trk', 14, 20)
+        bits_field(s_, 't', 21, 21)
+        ob('f', enum_id_claim(prog, A.f(s_, 'f'), CPR_IDS, me(22, 22)), 'CPR format differs from ME bit 22')
+        bits_field(s_, 'lat_cpr', 23, 39)
+        bits_field(s_, 'lon_cpr', 40, 56)
+    elif v == 'TargetStateAndStatusInformation':
+        t_ = m_.f[0]
+        bits_field(t_, 'subtype', 6, 7)
+        bits_field(t_, 'is_fms', 9, 9)
+        n = zx(me(10, 20), 32)
+        want_alt = z3.If(z3.UGT(n, 1), (n - 1) * 32, z3.BitVecVal(0, 32))
+        ob('altitude', zx(bv_of(A.f(t_, 'altitude')), 32) == want_alt, 'selected altitude differs from (N-1)*32 ft of ME bits 10-20')
+        q = zx(me(21, 29), 32)
+        want_q = z3.If(q == 0, z3.FPVal(0.0, F32),
+                       z3.fpAdd(z3.RNE(), z3.FPVal(800.0, F32),
+                                z3.fpMul(z3.RNE(), z3.fpUnsignedToFP(z3.RNE(), q - 1, F32), z3.FPVal(0.8, F32))))
+        ob('qnh', flt_term(A.f(t_, 'qnh')) == want_q, 'QNH differs from 800+(N-1)*0.8 of ME bits 21-29')
+        bits_field(t_, 'is_heading', 30, 30)
+        h = zx(me(31, 39), 16)
+        want_h = z3.fpDiv(z3.RNE(), z3.fpMul(z3.RNE(), z3.fpUnsignedToFP(z3.RNE(), h, F32), z3.FPVal(180.0, F32)),
+                          z3.FPVal(256.0, F32))
+        ob('heading', flt_term(A.f(t_, 'heading')) == want_h, 'heading differs from N*180/256 of ME bits 31-39')
+        for name, a, b in (('nacp', 40, 43), ('nicbaro', 44, 44), ('sil', 45, 46), ('mode_validity', 47, 47),
+                           ('autopilot', 48, 48), ('vnac', 49, 49), ('alt_hold', 50, 50), ('imf', 51, 51),
+                           ('approach', 52, 52), ('tcas', 53, 53), ('lnav', 54, 54)):
+            bits_field(t_, name, a, b)
+    elif v == 'AircraftOperationStatus':
+        o_ = m_.f[0]
+        ob('opstatus-dispatch', enum_id_claim(prog, o_, OPST_IDS, me(6, 8)), 'operational status variant differs from the subtype')
+        if o_.variant == 'Airborne':
+            a_ = o_.f[0]
+            cc = A.f(a_, 'capability_class')
+            for name, x, y in (('acas', 11, 11), ('cdti', 12, 12), ('arv', 15, 15), ('ts', 16, 16), ('tc', 17, 18)):
+                bits_field(cc, name, x, y)
+            opmode(ctx, ob, A.f(a_, 'operational_mode'), me)
+            ob('version_number', enum_id_claim(prog, A.f(a_, 'version_number'), VER_IDS, me(41, 43)), 'version differs from ME bits 41-43')
+            for name, x, y in (('nic_supplement_a', 44, 44), ('navigational_accuracy_category', 45, 48),
+                               ('geometric_vertical_accuracy', 49, 50), ('source_integrity_level', 51, 52),
+                               ('barometric_altitude_integrity', 53, 53), ('horizontal_reference_direction', 54, 54),
+                               ('sil_supplement', 55, 55)):
+                bits_field(a_, name, x, y)
+        elif o_.variant == 'Surface':
+            s_ = o_.f[0]
+            cc = A.f(s_, 'capability_class')
+            for name, x, y in (('poe', 11, 11), ('es1090', 12, 12), ('b2_low', 15, 15), ('uat_in', 16, 16),
+                               ('nac_v', 17, 19), ('nic_supplement_c', 20, 20)):
+                bits_field(cc, name, x, y)
+            bits_field(s_, 'lw_codes', 21, 24)
+            opmode(ctx, ob, A.f(s_, 'operational_mode'), me)
+            bits_field(s_, 'gps_antenna_offset', 33, 40)
+            ob('version_number', enum_id_claim(prog, A.f(s_, 'version_number'), VER_IDS, me(41, 43)), 'version differs from ME bits 41-43')
+            for name, x, y in (('nic_supplement_a', 44, 44), ('navigational_accuracy_category', 45, 48),
+                               ('source_integrity_level', 51, 52), ('barometric_altitude_integrity', 53, 53),
+                               ('horizontal_reference_direction', 54, 54), ('sil_supplement', 55, 55)):
+                bits_field(s_, name, x, y)
+
+
+def opmode(ctx, ob, om, me):
+    A = ctx['A']
+    for name, x, y in (('tcas_ra_active', 27, 27), ('ident_switch_active', 28, 28),
+                       ('reserved_recv_atc_service', 29, 29), ('single_antenna_flag', 30, 30),
+                       ('system_design_assurance', 31, 32)):
+        ob('operational_mode.' + name, eq_bits(A.f(om, name), me(x, y)), '%s differs from ME bits %d-%d' % (name, x, y))
+
+
+# ======================================================================================= C07 (fields + integer part of calculate)
+SIGN_IDS = {'Positive': 0, 'Negative': 1}
+VRS_IDS = {'GeometricAltitude': 0, 'BarometricPressureAltitude': 1}       # DO-260B: 0 = GNSS/geometric, 1 = barometric
+
+
+def c07(ctx, l, sig):
+    prog, L, bs, P, A = ctx['prog'], ctx['L'], ctx['bs'], ctx['P'], ctx['A']
+    fr = ok_frame(l)
+    if fr is None or L < 14:
+        return
+    df = A.f(fr, 'df')
+    m_ = me_of(ctx, df)
+    if m_ is None or m_.variant != 'AirborneVelocity':
+        return
+    F = bs[:14]
+    av = m_.f[0]
+
+    def me(a, b):
+        return fbits(F, 32 + a, 32 + b)
+
+    def ob(role, claim, detail):
+        obligation(ctx, 'C07', '%s:%s' % (sig, role), claim, detail)
+
+    def bits_field(obj, name, a, b):
+        ob(name, eq_bits(A.f(obj, name), me(a, b)), '%s differs from ME bits %d-%d' % (name, a, b))
+
+    bits_field(av, 'st', 6, 8)
+    bits_field(av, 'nac_v', 9, 13)
+    st_tab = {'Reserved0': [0], 'GroundSpeedDecoding': [1, 2], 'AirspeedDecoding': [3, 4], 'Reserved1': [5, 6, 7]}
+    sub = A.f(av, 'sub_type')
+    ob('subtype-dispatch', enum_id_claim(prog, sub, st_tab, me(6, 8)), 'velocity sub-structure differs from the subtype')
+    if sub.variant == 'GroundSpeedDecoding':
+        g = sub.f[0]
+        ob('ew_sign', enum_id_claim(prog, A.f(g, 'ew_sign'), SIGN_IDS, me(14, 14)), 'E/W direction differs from ME bit 14')
+        bits_field(g, 'ew_vel', 15, 24)
+        ob('ns_sign', enum_id_claim(prog, A.f(g, 'ns_sign'), SIGN_IDS, me(25, 25)), 'N/S direction differs from ME bit 25')
+        bits_field(g, 'ns_vel', 26, 35)
+    elif sub.variant == 'AirspeedDecoding':
+        a_ = sub.f[0]
+        bits_field(a_, 'status_heading', 14, 14)
+        bits_field(a_, 'mag_heading', 15, 24)
+        bits_field(a_, 'airspeed_type', 25, 25)
+        raw = zx(me(26, 35), 16)
+        ob('airspeed', zx(bv_of(A.f(a_, 'airspeed')), 16) == z3.If(raw == 0, raw, raw - 1), 'airspeed differs from raw-1 kt of ME bits 26-35')
+    ob('vrate_src', enum_id_claim(prog, A.f(av, 'vrate_src'), VRS_IDS, me(36, 36)), 'vertical rate source differs from ME bit 36 (0 = geometric, 1 = barometric)')
+    ob('vrate_sign', enum_id_claim(prog, A.f(av, 'vrate_sign'), SIGN_IDS, me(37, 37)), 'vertical rate sign differs from ME bit 37')
+    bits_field(av, 'vrate_value', 38, 46)
+    ob('gnss_sign', enum_id_claim(prog, A.f(av, 'gnss_sign'), SIGN_IDS, me(49, 49)), 'difference sign differs from ME bit 49')
+    raw = zx(me(50, 56), 16)
+    ob('gnss_baro_diff', zx(bv_of(A.f(av, 'gnss_baro_diff')), 16) == z3.If(z3.ULE(raw, 1), z3.BitVecVal(0, 16), (raw - 1) * 25),
+       'GNSS-baro difference differs from (raw-1)*25 ft of ME bits 50-56')
+    c07_calculate(ctx, l, sig, av, me, ob)
+
+
+def c07_calculate(ctx, l, sig, av, me, ob):
+    """AirborneVelocity::calculate on this leaf's value: presence rule, components, vertical rate, and the shape of
+    the heading / speed terms (atan2 / hypot are uninterpreted: argument order and post-processing are decided)."""
+    prog, P = ctx['prog'], ctx['P']
+    name = prog.find_free_fn('AirborneVelocity::calculate')
+    if name is None:
+        raise ExecError('AirborneVelocity::calculate not found')
+    ex = Executor(prog, _b.B)
+    leaves = ex.run(prog.items[name], [Ref(('V', av))], pc=list(l.pc))
+    if ex.stats['unknown']:
+        ctx['res']['inconclusive'] = 'solver returned unknown while exploring calculate()'
+    ctx['res']['fn_calls'].update({k: ctx['res']['fn_calls'].get(k, 0) + v for k, v in ex.stats['fn_calls'].items()})
+    st = zx(me(6, 8), 16)
+    ew = zx(me(15, 24), 16)
+    ns = zx(me(26, 35), 16)
+    vr = zx(me(38, 46), 16)
+    gs = z3.Or(st == 1, st == 2)
+    expect_some = z3.And(gs, ew != 0, ns != 0, vr != 0)
+    scale = z3.If(st == 2, z3.BitVecVal(4, 16), z3.BitVecVal(1, 16))
+    v_ew = (ew - 1) * scale * z3.If(me(14, 14) == 1, z3.BitVecVal(-1, 16), z3.BitVecVal(1, 16))
+    v_ns = (ns - 1) * scale * z3.If(me(25, 25) == 1, z3.BitVecVal(-1, 16), z3.BitVecVal(1, 16))
+    want_vrate = (vr - 1) * 64 * z3.If(me(37, 37) == 1, z3.BitVecVal(-1, 16), z3.BitVecVal(1, 16))
+    F64 = z3.Float64()
+    fe = z3.fpSignedToFP(z3.RNE(), v_ew, F64)
+    fn_ = z3.fpSignedToFP(z3.RNE(), v_ns, F64)
+    K = z3.FPVal(360.0 / (2.0 * 3.141592653589793), F64)
+    for cl in leaves:
+        if cl.kind != 'return':
+            violation(ctx, 'C07', '%s:calculate-panics' % sig, P.feasible(z3.And(*cl.pc[len(l.pc):]) if cl.pc[len(l.pc):] else None),
+                      'calculate() panics: %s' % cl.msg)
+            continue
+        extra = cl.pc[len(l.pc):]
+        pre = z3.And(*extra) if extra else z3.BoolVal(True)
+        r = cl.value
+        if r.variant == 'None':
+            ob('calculate-presence', z3.Implies(pre, z3.Not(expect_some)), 'calculate() returns None although velocity and rate are present')
+            continue
+        ob('calculate-presence', z3.Implies(pre, expect_some), 'calculate() returns a velocity although a field is 0 (no information) or the subtype is not ground speed')
+        heading, speed, vrate = r.f[0].f
+        both = z3.And(pre, expect_some)
+        ob('calculate-vrate', z3.Implies(both, to_bv(vrate) == want_vrate), 'vertical rate differs from (raw-1)*64 with sign')
+        # heading = wrap(atan2(E, N) * 360/2pi) as f32, speed = hypot(E, N): locate the uninterpreted applications in
+        # the code's terms, compare their arguments with the reference components, then compare the shape around them
+        at = find_app(to_fp(heading), 'libm_atan2_f64')
+        hy = find_app(to_fp(speed), 'libm_hypot_f64')
+        if at is None or hy is None:
+            violation(ctx, 'C07', '%s:calculate-shape' % sig, P.feasible(both), 'heading/speed are not computed with atan2/hypot')
+            continue
+        ob('calculate-east-component', z3.Implies(both, z3.And(z3.fpEQ(at.arg(0), fe), z3.fpEQ(hy.arg(0), fe))),
+           'east component is not (raw-1) kt (x4 for subtype 2) with its direction sign, or is not the first atan2/hypot argument')
+        ob('calculate-north-component', z3.Implies(both, z3.And(z3.fpEQ(at.arg(1), fn_), z3.fpEQ(hy.arg(1), fn_))),
+           'north component is not (raw-1) kt (x4 for subtype 2) with its direction sign, or is not the second atan2/hypot argument')
+        h = z3.fpMul(z3.RNE(), at, K)
+        want_heading = z3.fpToFP(z3.RNE(), z3.If(z3.fpLT(h, z3.FPVal(0.0, F64)), z3.fpAdd(z3.RNE(), h, z3.FPVal(360.0, F64)), h), z3.Float32())
+        ob('calculate-heading', z3.Implies(both, to_fp(heading) == want_heading), 'track is not atan2(east, north) in degrees wrapped to [0, 360)')
+        ob('calculate-speed', z3.Implies(both, to_fp(speed) == hy), 'ground speed is not the Euclidean norm (hypot) of the components')
+
+
+def find_app(t, name):
+    """first application of the function `name` inside term t (DFS)"""
+    seen = set()
+    stack = [t]
+    while stack:
+        x = stack.pop()
+        i = x.get_id()
+        if i in seen:
+            continue
+        seen.add(i)
+        if z3.is_app(x):
+            if x.decl().name() == name:
+                return x
+            stack.extend(x.children())
+    return None
+
+
+HANDLERS.update({'C10': c10, 'C07': c07})
